@@ -115,6 +115,8 @@ pub fn ltx(t: &mut Toks) -> String {
             tokio::time::sleep(Duration::from_millis(40)).await;
             let (after, _) = digest(&agent).await;
             let ver = body.0.version;
+            // statements reported as failed in the response
+            let errs = body.0.results.iter().filter(|r| matches!(r, klukai_types::api::ExecResult::Error { .. })).count();
             // records of the acknowledged version
             let recs: Vec<String> = match ver {
                 None => vec![],
@@ -180,8 +182,9 @@ pub fn ltx(t: &mut Toks) -> String {
             };
             let _ = generate_sync(&bookie, agent.actor_id()).await;
             outs.push(format!(
-                "ok={} v={} same={} recs={} chunks={} need={}",
+                "ok={} errs={} v={} same={} recs={} chunks={} need={}",
                 if status.is_success() { 1 } else { 0 },
+                errs,
                 ver.map(|v| v.to_string()).unwrap_or("-".into()),
                 if before == after { 1 } else { 0 },
                 recs.join(","),
